@@ -384,26 +384,43 @@ def check_lru(ck, cm: CacheModel):
     R = "C06.R3"
     ck.rule(R, "LRU discipline: mark-used = remove then append (right end); eviction takes the left end; every "
                "path that serves a resident entry passes mark-used", 4)
-    fa = FA(ck, cm.mark_used)
-    key = cm.mark_used.params[1]
-    rem = [c for c in fa.calls("remove") if self_attr(A.call_recv(c), cm.queue)]
-    app = [c for c in fa.calls("append") if self_attr(A.call_recv(c), cm.queue)]
-    ok = False
-    if rem and app:
-        appn = fa.nodes_all(app)
-        # append post-dominates entry: every path to exit passes an append of the key
-        ok = fa.cfg.must_pass(appn, fa.cfg.exit) and all(c.args and A.norm(c.args[0]) == key for c in app + rem)
-        # no appendleft
-    ok = ok and not fa.calls("appendleft")
-    ck.ob(R, fa.key(None, "mark-used-shape"), ok,
-          "mark-used removes the key and appends it at the right end on every path" if ok else
-          "mark-used does not re-append the key at the right end on every path", fa.where())
+    if cm.mark_used is not None:
+        fa = FA(ck, cm.mark_used)
+        key = cm.mark_used.params[1]
+        rem = [c for c in fa.calls("remove") if self_attr(A.call_recv(c), cm.queue)]
+        app = [c for c in fa.calls("append") if self_attr(A.call_recv(c), cm.queue)]
+        ok = False
+        if rem and app:
+            appn = fa.nodes_all(app)
+            # append post-dominates entry: every path to exit passes an append of the key
+            ok = fa.cfg.must_pass(appn, fa.cfg.exit) and all(c.args and A.norm(c.args[0]) == key for c in app + rem)
+        ok = ok and not fa.calls("appendleft")
+        ck.ob(R, fa.key(None, "mark-used-shape"), ok,
+              "mark-used removes the key and appends it at the right end on every path" if ok else
+              "mark-used does not re-append the key at the right end on every path", fa.where())
+    else:
+        # inline form: in every method that removes a key from the queue without deleting it from the map, every
+        # path from the removal to the exit re-appends that key at the right end
+        n_inline = 0
+        for name, m in cm.cls.methods.items():
+            if m is cm.evict or m in cm.inserts or name.startswith("__") or name.startswith("forget"):
+                continue
+            f2 = FA(ck, m)
+            for rc in [c for c in f2.calls("remove") if self_attr(A.call_recv(c), cm.queue) and c.args]:
+                apps = f2.nodes_all([c for c in f2.calls("append") if self_attr(A.call_recv(c), cm.queue) and c.args and A.norm(c.args[0]) == A.norm(rc.args[0])])
+                ok = bool(apps) and all(f2.cfg.exit not in f2.cfg.reach([i], removed=apps, include_start=False,
+                                                                         edge_ok=lambda s_, d_, l_: l_ != "exc" or True) for i in f2.nodes(rc)) and not f2.calls("appendleft")
+                n_inline += 1
+                ck.ob(R, f2.key(rc, "mark-used-shape"), ok,
+                      "a key taken out of the recency queue is appended again at the right end on every path" if ok else
+                      "a key is removed from the recency queue and not re-appended at the right end on every path", f2.where(rc))
+        ck.need(n_inline >= 1, "MemoryCache: no mark-used helper and no inline remove-then-append found")
     # hits pass mark-used
     for name, m in cm.cls.methods.items():
         if m in (cm.evict, cm.insert, cm.mark_used) or name.startswith("__"):
             continue
         f2 = FA(ck, m)
-        marks = f2.nodes_all([c for c in f2.calls(cm.mark_used.name) if cm.is_self_call(c, cm.mark_used)])
+        marks = cm.mark_nodes(f2)
         # (1) returns whose value is read out of the resident map
         for r in f2.returns():
             if r.value is None:
